@@ -424,3 +424,76 @@ def generated(rng, n, safe=True, maxdepth=3):
 
 def generated_statements(rng, n, safe=True):
     return [s for _, s, _ in generated(rng, n, safe=safe, maxdepth=None)]
+
+
+def deep_statements(tier="quick"):
+    """shapes with unusually tall or wide trees (the parser builds operator chains iteratively, so tree
+    height is not bounded by the nesting limit)"""
+    ns = [150, 400, 1200] if tier == "quick" else [150, 400, 1200, 5000, 20000]
+    out = []
+    for n in ns:
+        out.append("SELECT * FROM t WHERE a IN (SELECT k FROM first_t) OR " + " OR ".join("c%d = %d" % (i, i) for i in range(n)))
+        out.append("SELECT * FROM t WHERE x0 = 0 AND " + " AND ".join("c%d > %d" % (i, i) for i in range(n)))
+        out.append("SELECT " + " + ".join("c%d" % i for i in range(n)) + " FROM t")
+        out.append("SELECT " + " || ".join("'s%d'" % i for i in range(n)) + " FROM t")
+        out.append("SELECT " + ", ".join("c%d" % i for i in range(n)) + " FROM t")
+        out.append("SELECT a FROM t UNION ALL " + " UNION ALL ".join("SELECT c%d FROM t%d" % (i, i) for i in range(min(n, 12))))
+    for d in [10, 40, 80]:
+        s = "SELECT 1 FROM inner_t"
+        for i in range(d):
+            s = "SELECT 1 FROM t%d WHERE NOT EXISTS (%s)" % (i, s)
+        out.append(s)
+        s = "SELECT x FROM base_t"
+        for i in range(d):
+            s = "SELECT x FROM (%s) AS d%d" % (s, i)
+        out.append(s)
+        out.append("SELECT " + "(" * d + "a" + ")" * d + " FROM t")
+        out.append("SELECT " + "f(" * d + "a" + ")" * d + " FROM t")
+        s = "a"
+        for i in range(d):
+            s = "CASE WHEN %s THEN 1 ELSE 0 END" % s
+        out.append("SELECT " + s + " FROM t")
+    return out
+
+
+SPECIAL = [
+    "SELECT STRING_AGG(name, ',' ORDER BY k1, k2 DESC, (SELECT MAX(p) FROM priorities)) FROM t",
+    "SELECT PERCENTILE_CONT(0.5) WITHIN GROUP (ORDER BY a, b) FROM t",
+    "SELECT COUNT(*) FILTER (WHERE a > 1), SUM(b) OVER (PARTITION BY c, d ORDER BY e, f ROWS BETWEEN 2 PRECEDING AND 3 FOLLOWING) FROM t WINDOW w AS (PARTITION BY a ORDER BY b)",
+    "SELECT a[1], b[2:3], c[1][2], ARRAY[1, 2, (SELECT 3)], (1, 2, 3), ROW(1, 2) FROM t",
+    "SELECT * FROM t WHERE (a, b) IN ((1, 2), (3, 4)) AND c = ANY (SELECT d FROM u) AND e > ALL (SELECT f FROM v)",
+    "SELECT EXTRACT(YEAR FROM d), POSITION('a' IN s), SUBSTRING(s FROM 1 FOR 2), CAST(a AS INT), a::text, INTERVAL '1 day' FROM t",
+    "SELECT * FROM a JOIN b ON a.x = b.x LEFT JOIN (SELECT * FROM c WHERE c.y IN (SELECT y FROM d)) AS cc ON cc.x = a.x, LATERAL (SELECT 1) AS l",
+    "INSERT INTO t (a, b) VALUES (1, (SELECT 2)), (3, 4) ON CONFLICT (a) DO UPDATE SET b = EXCLUDED.b, a = 1 WHERE t.a > 0 RETURNING a, b",
+    "INSERT INTO t (a) SELECT x FROM u WHERE x IN (SELECT y FROM v) ON DUPLICATE KEY UPDATE a = 1, b = 2",
+    "UPDATE t SET a = 1, b = (SELECT MAX(c) FROM u) FROM v WHERE t.id = v.id AND EXISTS (SELECT 1 FROM w) RETURNING a",
+    "DELETE FROM t USING u WHERE t.id = u.id AND t.x IN (SELECT x FROM v) RETURNING t.id",
+    "MERGE INTO tgt t USING (SELECT * FROM src WHERE a IN (SELECT a FROM z)) s ON t.id = s.id WHEN MATCHED AND s.x > 1 THEN UPDATE SET a = s.a, b = s.b WHEN NOT MATCHED THEN INSERT (id, a) VALUES (s.id, s.a) WHEN MATCHED THEN DELETE",
+    "WITH RECURSIVE r (n) AS (SELECT 1 UNION ALL SELECT n + 1 FROM r WHERE n < 5), s AS MATERIALIZED (SELECT * FROM r) SELECT * FROM s ORDER BY n DESC NULLS LAST LIMIT 3 OFFSET 1",
+    "SELECT a FROM t GROUP BY ROLLUP(a, b), CUBE(c, d), GROUPING SETS ((a, b), (c), ()) HAVING COUNT(*) > 1 AND MAX(e) < 5",
+    "SELECT DISTINCT ON (a, b) a, b, c FROM t ORDER BY a, b FETCH FIRST 5 ROWS ONLY",
+    "SELECT * FROM t FOR UPDATE OF t SKIP LOCKED",
+    "CREATE TABLE t (id INT PRIMARY KEY, a VARCHAR(10) NOT NULL DEFAULT 'x' CHECK (a <> ''), b INT REFERENCES u (id) ON DELETE CASCADE, CONSTRAINT c1 UNIQUE (a, b), FOREIGN KEY (b) REFERENCES v (id), CHECK (id > 0 AND b IN (1, 2))) ",
+    "CREATE TABLE p (id INT, d DATE) PARTITION BY RANGE (d)",
+    "CREATE MATERIALIZED VIEW mv AS SELECT a, COUNT(*) FROM t WHERE b IN (SELECT b FROM u) GROUP BY a",
+    "CREATE VIEW v (x, y) AS SELECT a, b FROM t UNION SELECT c, d FROM u",
+    "CREATE UNIQUE INDEX CONCURRENTLY IF NOT EXISTS i ON t USING btree (a DESC, b) WHERE a > 0",
+    "ALTER TABLE t ADD COLUMN c INT NOT NULL DEFAULT 0",
+    "ALTER TABLE t DROP COLUMN IF EXISTS c CASCADE",
+    "ALTER TABLE t RENAME COLUMN a TO b",
+    "ALTER TABLE t RENAME TO u",
+    "ALTER TABLE t ADD CONSTRAINT fk FOREIGN KEY (a) REFERENCES u (id)",
+    "ALTER TABLE t DROP CONSTRAINT fk",
+    "ALTER TABLE t ALTER COLUMN a SET DEFAULT 5",
+    "TRUNCATE TABLE a, b RESTART IDENTITY CASCADE",
+    "DROP TABLE IF EXISTS a, b CASCADE",
+    "REFRESH MATERIALIZED VIEW CONCURRENTLY mv",
+    "SELECT a FROM t WHERE b BETWEEN (SELECT MIN(x) FROM u) AND (SELECT MAX(x) FROM u) AND c LIKE 'a%' ESCAPE '\\' AND d IS NOT NULL AND NOT (e = 1)",
+    "SELECT CASE a WHEN 1 THEN (SELECT x FROM u) WHEN 2 THEN 'b' ELSE (SELECT y FROM v) END FROM t",
+    "SELECT t.*, u.a AS ua FROM s1.t AS t CROSS JOIN u NATURAL JOIN w FULL OUTER JOIN z USING (id, k)",
+    "SELECT a -> 'k', b ->> 'k', c #> '{a,b}', d @> '{}', e ? 'k' FROM t",
+    "SELECT MATCH (title, body) AGAINST ('x' IN BOOLEAN MODE) FROM articles LIMIT 10, 20",
+    "REPLACE INTO t (a, b) VALUES (1, 2)",
+    "SHOW TABLES",
+    "DESCRIBE t",
+]
